@@ -1,6 +1,162 @@
-/-! `pmodel units`: line-protocol driver (stub — replaced by the owner of this model). -/
-namespace Driver.Units
+import PhreeqcVerif.Model.Util
+import PhreeqcVerif.Model.Units
+import PhreeqcVerif.Model.MixAlg
+/-! `pmodel units`: line-protocol driver of the unit-conversion and mixing models (exact `Rat` arithmetic; doubles in,
+nearest doubles out).
 
-def run : IO Unit := IO.eprintln "pmodel units: not implemented"
+```
+conv <hex solution units> <density> <water> <sum0> <density_iterations> <kgw_kgs>    start a convert_units case
+elt <hex element> <gfw>                                                              element weight
+comp <hex name> <conc> <hex own unit | -> <alk 0|1> <gfw> <hex as> <elts e:coef,… | -> <master gfw | -> <minor 0|1>
+go                      → R <errors> <massWater>, T <hex name> <moles> …, G <hex name> <gfw after the pass> …, E
+sol <n> tc ph pe mu ah2o density patm totalH totalO cb water alk <hex name>:<val> …   start/extend a mixing case
+prim <hex name> <hex primary | ->
+line <n> <fraction>     one data line of the MIX block (input order)
+gomix                   → MIX n:f …, AM …, CM …, MU …, E
+```
+numbers are 16 hex digits of the double. -/
+namespace Driver.Units
+open PhreeqcVerif PhreeqcVerif.Util PhreeqcVerif.Units PhreeqcVerif.MixAlg
+
+/-- exact value of a finite double -/
+def ratOfBits (b : UInt64) : Rat :=
+  let s := b >>> 63
+  let e := ((b >>> 52) &&& 0x7ff).toNat
+  let m := (b &&& 0xFFFFFFFFFFFFF).toNat
+  let mag : Rat :=
+    if e == 0x7ff then 0
+    else if e == 0 then (m : Rat) / ((2 : Rat) ^ 1074)
+    else if e ≥ 1075 then ((2 ^ 52 + m : Nat) : Rat) * ((2 : Rat) ^ (e - 1075))
+    else ((2 ^ 52 + m : Nat) : Rat) / ((2 : Rat) ^ (1075 - e))
+  if s == 1 then -mag else mag
+
+/-- a double within one unit in the last place of `q` -/
+def floatOfRat' (q : Rat) : Float :=
+  if q == 0 then 0.0 else
+  let n := q.num.natAbs
+  let d := q.den
+  let k : Int := 64 + (Nat.log2 d : Int) - (Nat.log2 n : Int)
+  let t : Nat := if k ≥ 0 then (n <<< k.toNat) / d else n / (d <<< (-k).toNat)
+  let f := (Float.ofNat t).scaleB (-k)
+  if q.num < 0 then -f else f
+
+def num? (s : String) : Option Rat := (unhex64 s).map ratOfBits
+def outNum (q : Rat) : String := hexOfFloat (floatOfRat' q)
+
+structure ConvCase where
+  solUnit : Units.Unit := Units.Unit.molPerKgw
+  density : Rat := 1
+  water : Rat := 1
+  sum0 : Rat := 0
+  iter : Nat := 0
+  kgwKgs : Rat := 1
+  elts : List (String × Rat) := []
+  comps : List Comp := []
+
+structure MixCase where
+  sols : List (Int × Sol) := []
+  prims : List (String × Option String) := []
+  lines : List (Int × Rat) := []
+
+structure State where
+  conv : ConvCase := {}
+  mix : MixCase := {}
+
+def parseElts (s : String) : Option (List (String × Rat)) :=
+  if s == "-" then some [] else
+  (s.splitOn ",").mapM fun it =>
+    match it.splitOn ":" with
+    | [e, c] => do let e ← unhexStr e; let c ← num? c; pure (e, c)
+    | _ => none
+
+def parseTotals (ws : List String) : Option Totals :=
+  ws.foldlM (fun (m : Totals) it =>
+    match it.splitOn ":" with
+    | [k, v] => do let k ← unhexStr k; let v ← num? v; pure (m.insert k v)
+    | _ => none) ∅
+
+def showTotals (t : Totals) : String :=
+  String.intercalate " " (t.toList.map fun kv => s!"{hexStr kv.1}:{outNum kv.2}")
+
+def showSol (tag : String) (n : Int) (s : Sol) : String :=
+  s!"{tag} {n} {outNum s.tc} {outNum s.ph} {outNum s.pe} {outNum s.mu} {outNum s.ah2o} {outNum s.density} " ++
+  s!"{outNum s.totalH} {outNum s.totalO} {outNum s.cb} {outNum s.water} {outNum s.patm} {outNum s.alk} {showTotals s.totals}"
+
+def step (st : State) (line : String) : State × List String :=
+  match words line with
+  | ["conv", u, dens, water, sum0, iter, kk] =>
+    match (unhexStr u).bind Units.Unit.ofCanon, num? dens, num? water, num? sum0, iter.toNat?, num? kk with
+    | some u, some d, some w, some s0, some it, some k =>
+      ({ st with conv := { solUnit := u, density := d, water := w, sum0 := s0, iter := it, kgwKgs := k } }, [])
+    | _, _, _, _, _, _ => (st, ["bad-conv"])
+  | ["elt", e, g] =>
+    match unhexStr e, num? g with
+    | some e, some g => ({ st with conv := { st.conv with elts := st.conv.elts ++ [(e, g)] } }, [])
+    | _, _ => (st, ["bad-elt"])
+  | ["comp", name, conc, own, alk, gfw, asn, elts, mg, minor] =>
+    let mgv : Option (Option Rat) := if mg == "-" then some none else (num? mg).map some
+    let ownU : Option (Option Units.Unit) :=
+      if own == "-" then some none else ((unhexStr own).bind Units.Unit.ofCanon).map some
+    match unhexStr name, num? conc, ownU.bind (fixupUnit st.conv.solUnit · (alk == "1")), num? gfw, unhexStr asn, parseElts elts, mgv with
+    | some name, some conc, some unit, some gfw, some asn, some elts, some mgv =>
+      let c : Comp := { name := name, conc := conc, unit := unit, gfw := gfw, asName := asn, asElts := elts,
+                        masterGfw := mgv, minor := minor == "1" }
+      ({ st with conv := { st.conv with comps := st.conv.comps ++ [c] } }, [])
+    | _, _, _, _, _, _, _ => (st, ["bad-comp"])
+  | ["go"] =>
+    let c := st.conv
+    let elt : String → Option Rat := fun e => (c.elts.find? (·.1 == e)).map (·.2)
+    let p : Params := { solUnit := c.solUnit, density := c.density, water := c.water, sum0 := c.sum0,
+                        densityIter := c.iter, kgwKgs := c.kgwKgs, elt := elt }
+    -- the code iterates the keyed map: last definition of a name wins, key order
+    let comps := (readComps c.comps).toList.map (·.2)
+    let r := convertUnits p ∅ comps
+    let out := [s!"R {r.err} {outNum r.massWater}"] ++
+      r.totals.toList.map (fun kv => s!"T {hexStr kv.1} {outNum kv.2}") ++
+      comps.map (fun cc => s!"G {hexStr cc.name} {outNum (cc.afterPass p.solUnit.den p.density elt).gfw}") ++ ["E"]
+    ({ st with conv := {} }, out)
+  | "sol" :: n :: tc :: ph :: pe :: mu :: ah :: de :: pa :: th :: to :: cb :: wa :: al :: tot =>
+    match n.toInt?, [tc, ph, pe, mu, ah, de, pa, th, to, cb, wa, al].mapM num?, parseTotals tot with
+    | some n, some [tc, ph, pe, mu, ah, de, pa, th, to, cb, wa, al], some t =>
+      let s : Sol := ⟨tc, ph, pe, mu, ah, de, pa, th, to, cb, wa, al, t⟩
+      ({ st with mix := { st.mix with sols := st.mix.sols ++ [(n, s)] } }, [])
+    | _, _, _ => (st, ["bad-sol"])
+  | ["prim", k, p] =>
+    match unhexStr k, (if p == "-" then some none else (unhexStr p).map some) with
+    | some k, some p => ({ st with mix := { st.mix with prims := st.mix.prims ++ [(k, p)] } }, [])
+    | _, _ => (st, ["bad-prim"])
+  | ["line", n, f] =>
+    match n.toInt?, num? f with
+    | some n, some f => ({ st with mix := { st.mix with lines := st.mix.lines ++ [(n, f)] } }, [])
+    | _, _ => (st, ["bad-line"])
+  | ["gomix"] =>
+    let m := st.mix
+    let store : Int → Option Sol := fun n => (m.sols.find? (·.1 == n)).map (·.2)
+    let prim : String → Option String := fun k => match m.prims.find? (·.1 == k) with | some (_, p) => p | none => none
+    let comps := (readMix m.lines).toList
+    let a := addMix prim store comps Acc.zero
+    let cm := mixSolutions store comps
+    let l1 := "MIX " ++ String.intercalate " " (comps.map fun nf => s!"{nf.1}:{outNum nf.2}")
+    let l2 := s!"AM {outNum a.tc} {outNum a.ph} {outNum a.pe} {outNum a.mu} {outNum a.ah2o} {outNum a.density} " ++
+      s!"{outNum a.totalH} {outNum a.totalO} {outNum a.cb} {outNum a.water} {outNum a.patm} {a.err} " ++
+      String.intercalate " " ((a.totals.toList.filter (·.2 != 0)).map fun kv => s!"{hexStr kv.1}:{outNum kv.2}")
+    let l3 := showSol "CM" 0 cm
+    let l4 := match comps with
+      | (n, f) :: _ => match store n with | some s => [showSol "MU" n (s.multiply f)] | none => []
+      | [] => []
+    ({ st with mix := {} }, [l1, l2, l3] ++ l4 ++ ["E"])
+  | [] => (st, [])
+  | _ => (st, ["bad-op"])
+
+def run : IO _root_.Unit := do
+  let stdin ← IO.getStdin
+  let lines ← readLines stdin
+  let out ← IO.getStdout
+  let mut st : State := {}
+  for l in lines do
+    let (st', o) := step st l
+    st := st'
+    for x in o do out.putStrLn x
+  out.flush
 
 end Driver.Units
